@@ -17,7 +17,7 @@ type c18Case struct {
 	Wills     int    `json:"wills"`     // 0..3 registered will commands
 	Cause     string `json:"cause"`     // client-close | protocol-error | client-kill
 	CloseAt   string `json:"closeat"`   // before-grant | at-timeout-tick | after-timeout
-	Reconnect string `json:"reconnect"` // no | before-late-reply | after-late-reply
+	Reconnect string `json:"reconnect"` // no | before-late-reply | after-late-reply | before-close (the new connection announces the id while the old one is still open)
 }
 
 func (k c18Case) name() string {
@@ -31,7 +31,7 @@ func c18Cases(quick bool) []EnumCase {
 			for wills := 0; wills <= 3; wills++ {
 				for _, cause := range []string{"client-close", "protocol-error", "client-kill"} {
 					for _, at := range []string{"before-grant", "at-timeout-tick", "after-timeout"} {
-						for _, rc := range []string{"no", "before-late-reply", "after-late-reply"} {
+						for _, rc := range []string{"no", "before-late-reply", "after-late-reply", "before-close"} {
 							if text && (init || rc != "no") {
 								continue // client ids are a binary-protocol notion
 							}
@@ -132,6 +132,12 @@ func evalC18(c *Ctx, cs EnumCase) EnumResult {
 			closeT = t0 + 7*sec
 		}
 		vrt.AdvanceTo(closeT)
+		var nc *wire.Conn
+		if k.Reconnect == "before-close" {
+			nc, _ = wire.Dial(addr)
+			_ = nc.Send(initFrame(40, 0xaa))
+			nc.TakeBin()
+		}
 		switch k.Cause {
 		case "client-close":
 			v.Close()
@@ -191,7 +197,6 @@ func evalC18(c *Ctx, cs EnumCase) EnumResult {
 			}
 		}
 		// reconnect under the same client id
-		var nc *wire.Conn
 		if k.Reconnect == "before-late-reply" {
 			nc, _ = wire.Dial(addr)
 			_ = nc.Send(initFrame(40, 0xaa))
@@ -222,11 +227,12 @@ func evalC18(c *Ctx, cs EnumCase) EnumResult {
 			for _, r := range late {
 				if r.Req[0] == 3 {
 					gotLate = true
-				} else if r.Req[0] != 40 && r.Req[0] != 2 {
+				} else if r.Req[0] != 40 && r.Req[0] != 2 && !(r.Req[0] >= 30 && r.Req[0] <= 32) {
+					// 30..32 are the victim's own will commands: their results are addressed to its client id
 					add("reply-misrouted", fmt.Sprintf("the reconnected connection received a frame for RequestId %d", r.Req[0]))
 				}
 			}
-			if k.Reconnect == "before-late-reply" && queuedLive && !gotLate {
+			if (k.Reconnect == "before-late-reply" || k.Reconnect == "before-close") && queuedLive && !gotLate {
 				add("late-reply-not-delivered-to-reconnected-client", fmt.Sprintf("a client announcing the same client id reconnected before the queued request was granted, but the grant reply was not delivered to it (it received %s)", binStr(late)))
 			}
 		}
